@@ -63,6 +63,7 @@ theorem pow_ok (u z : UnitV K) (p : Rat) (h : u.pow p = .ok z) :
     z.scale = RPow.rpow u.scale p ∧ z.dim = u.dim.pow p ∧ z.offset = 0 ∧ z.expr = u.expr.pow p := by
   simp only [UnitV.pow] at h
   split at h; · contradiction
+  split at h; · contradiction
   cases h
   exact ⟨rfl, rfl, rfl, rfl⟩
 
